@@ -322,7 +322,30 @@ fn layout_script(r: &mut SimRng) -> Vec<PyCall> {
     g.calls.push(PyCall { k: "new_env".into(), o: "e".into(), m: String::new(), a: ctor.clone() });
     g.calls.push(PyCall { k: "new_numpy".into(), o: "n".into(), m: String::new(), a: ctor });
     let steps = g.r.range(1, 8);
-    for _ in 0..steps {
+    for st in 0..steps {
+        // some steps carry nothing but modifications of resting orders (StepEnv only: the numpy API has no modify)
+        let n_so_far = g.m.orders.len();
+        if st > 0 && n_so_far > 0 && g.r.chance(0.3) {
+            for _ in 0..g.r.range(1, 3) {
+                let id = g.r.usize(n_so_far);
+                let cur = g.m.orders[id].o;
+                let (p, v) = match g.r.below(3) {
+                    0 => (None, Some(1u32.max(cur.start_vol / 2))),
+                    1 => (Some(g.price(cur.bid, true)), None),
+                    _ => (Some(g.price(cur.bid, true)), Some(cur.start_vol + 1)),
+                };
+                g.calls.push(call("e", "modify_order", vec![json!(id), opt(p), opt(v)]));
+            }
+            g.calls.push(call("e", "step", vec![]));
+            g.calls.push(call("n", "step", vec![]));
+            for m in ["level_1_data_array", "level_2_data_array", "get_market_data"] {
+                g.calls.push(call("e", m, vec![]));
+            }
+            for m in ["level_1_data", "level_2_data", "get_market_data"] {
+                g.calls.push(call("n", m, vec![]));
+            }
+            continue;
+        }
         let nb = g.r.range(1, 10) as usize;
         let mut sides = vec![];
         let mut vols = vec![];
